@@ -62,6 +62,10 @@ def wrappers(pp, rng):
         lambda a: a.copy().parse_with_tabs(), lambda a: pp.dict_of(pp.Word("ab"), a), lambda a: a.copy().set_name("N"),
         lambda a: a.copy().set_fail_action(lambda s, l, e, err: None), lambda a: pp.rest_of_line + a, lambda a: ... + a,
         lambda a: a + ... + pp.Literal(";"),
+        # look-behind with a WINDOW whose expression can raise a fatal exception while it is tried on the window slices
+        lambda a: a + pp.PrecededBy(a.copy() - pp.Literal("="), retreat=8),
+        lambda a: pp.Word("ab01x=") + pp.PrecededBy(pp.Word("ab01") - pp.Literal("="), retreat=6) + pp.Opt(a),
+        lambda a: a + pp.PrecededBy(a.copy().add_condition(lambda t: False, fatal=True), retreat=4),
     ]
     W2 = [
         lambda a, b: a + b, lambda a, b: a - b, lambda a, b: a | b, lambda a, b: a ^ b, lambda a, b: a & b,
@@ -70,6 +74,7 @@ def wrappers(pp, rng):
         lambda a, b: pp.SkipTo(a, ignore=b), lambda a, b: pp.DelimitedList(a, delim=b), lambda a, b: pp.nested_expr(a, b),
         lambda a, b: pp.dict_of(pp.Word("ab"), b), lambda a, b: a + (pp.Suppress(...) + b), lambda a, b: pp.Or([a, b, a + b]),
         lambda a, b: pp.MatchFirst([a + b, a, b]), lambda a, b: pp.And([a, pp.Opt(b), a]),
+        lambda a, b: a + pp.PrecededBy(a.copy() - b, retreat=7),
     ]
     return W1, W2
 
